@@ -1,4 +1,298 @@
-/- driver stub (ImportExport): replaced by the owner of this model group -/
+/- driver for C16 (export / import).  One request per line, one answer per line.
+
+   values      : as in Signac.Wire
+   strings     : S<hex utf8>
+   project     : P<n> job*          job := J S<id> <sp value> F<m> (S<rel path> <content>)*
+                 content := s (state point file of this job) | b<nat> (other bytes)
+   path spec   : none | id | fmt N<n> piece* | call N<n> S<path>*
+                 piece := L<hex> | K<hex key> | Q<hex key> | I | A | U<hex sep>
+   schema      : none | str S<schema string> | tab N<n> (S<rel path> <value>)*
+   target      : dir | zip | tar
+
+   auto <A|U<hex>> <project>                      -> per job  S<hex path> | !
+   paths <spec> <project>                         -> ok S<path>* | err <Name>
+   checks N<n> S<path>*                           -> u<0|1> l<0|1> c<0|1>   (unique, leaf/node repaired, leaf/node as coded)
+   members <target> <spec> <project>              -> ok (<hex path>:<content>)* | err <Name>     (sorted; tar adds <hex>:d)
+   rt <target> <spec> <schema> <dst project> <project> [W<n> S<dir>*]      (W: os.walk order of the exported tree, dir only)
+                                                  -> export-err <Name> | (ok | err <Name>) <project rendering>
+   parse S<schema> S<path>                        -> none | <value> | bad-schema
+   render S<schema> <value>                       -> S<path> | none | bad-schema
+   norm S<path>                                   -> S<normpath>
+   join N<n> S<token>*                            -> S<os.path.join(*tokens)>
+-/
+import Signac.Json
+import Signac.Md5
 import Signac.Wire
-open Signac
-def main : IO Unit := driverLoop (fun _ => "bad-op")
+import Signac.ImportExport
+open Signac Signac.IE
+
+abbrev Toks := List String
+
+def pStr : Toks → Option (String × Toks)
+  | t :: ts =>
+    match t.toList with
+    | 'S' :: hx => (unhex (String.ofList hx)).map (·, ts)
+    | _ => none
+  | [] => none
+
+def pNat (tag : Char) : Toks → Option (Nat × Toks)
+  | t :: ts =>
+    match t.toList with
+    | c :: rest => if c = tag then (String.ofList rest).toNat?.map (·, ts) else none
+    | [] => none
+  | [] => none
+
+def pMany {α : Type} (p : Toks → Option (α × Toks)) : Nat → Toks → Option (List α × Toks)
+  | 0, ts => some ([], ts)
+  | n + 1, ts => do
+    let (x, r) ← p ts
+    let (xs, r') ← pMany p n r
+    pure (x :: xs, r')
+
+def relComps (s : String) : Comps := if s = "" ∨ s = "." then [] else splitSlash s
+
+def pContent (sp : JVal) : Toks → Option (Content × Toks)
+  | t :: ts =>
+    match t.toList with
+    | ['s'] => some (.sp sp, ts)
+    | 'b' :: n => (String.ofList n).toNat?.map (fun k => (.blob k, ts))
+    | _ => none
+  | [] => none
+
+def pFile (sp : JVal) (ts : Toks) : Option ((Comps × Content) × Toks) := do
+  let (p, r) ← pStr ts
+  let (c, r') ← pContent sp r
+  pure ((relComps p, c), r')
+
+def pJob : Toks → Option (Job × Toks)
+  | "J" :: ts => do
+    let (id, r) ← pStr ts
+    let (sp, r) ← parseValue r
+    let (m, r) ← pNat 'F' r
+    let (fs, r) ← pMany (pFile sp) m r
+    pure (⟨id, fs⟩, r)
+  | _ => none
+
+def pProject (ts : Toks) : Option (Project × Toks) := do
+  let (n, r) ← pNat 'P' ts
+  pMany pJob n r
+
+def pPiece : Toks → Option (Piece × Toks)
+  | t :: ts =>
+    match t.toList with
+    | ['I'] => some (.jobid, ts)
+    | ['A'] => some (.auto none, ts)
+    | 'L' :: hx => (unhex (String.ofList hx)).map (fun s => (.lit s, ts))
+    | 'K' :: hx => (unhex (String.ofList hx)).map (fun s => (.key s, ts))
+    | 'Q' :: hx => (unhex (String.ofList hx)).map (fun s => (.jobsp s, ts))
+    | 'U' :: hx => (unhex (String.ofList hx)).map (fun s => (.auto (some s), ts))
+    | _ => none
+  | [] => none
+
+def pSpec : Toks → Option (PathSpec × Toks)
+  | "none" :: ts => some (.none, ts)
+  | "id" :: ts => some (.byId, ts)
+  | "fmt" :: ts => do
+    let (n, r) ← pNat 'N' ts
+    let (ps, r) ← pMany pPiece n r
+    pure (.fmt ps, r)
+  | "call" :: ts => do
+    let (n, r) ← pNat 'N' ts
+    let (ps, r) ← pMany pStr n r
+    pure (.call ps, r)
+  | _ => none
+
+def pTabEntry (ts : Toks) : Option ((Comps × JVal) × Toks) := do
+  let (p, r) ← pStr ts
+  let (v, r) ← parseValue r
+  pure ((relComps p, v), r)
+
+/-- `some none` = a schema string outside the modelled fragment -/
+def pSchema : Toks → Option (Option Schema × Toks)
+  | "none" :: ts => some (some .none, ts)
+  | "str" :: ts => do
+    let (s, r) ← pStr ts
+    pure ((parseSchema s).map Schema.pattern, r)
+  | "tab" :: ts => do
+    let (n, r) ← pNat 'N' ts
+    let (es, r) ← pMany pTabEntry n r
+    pure (some (.table es), r)
+  | _ => none
+
+def pTarget : Toks → Option (Target × Toks)
+  | "dir" :: ts => some (.dir, ts)
+  | "zip" :: ts => some (.zip, ts)
+  | "tar" :: ts => some (.tar, ts)
+  | _ => none
+
+def spList (P : Project) : List (String × JVal) := P.map (fun j => (j.id, spOf j))
+
+def hexPath (cs : Comps) : String := toHex (joinSlash cs)
+
+def showContent (id : String) : Content → String
+  | .sp v => if calcId v = id then "s" else "x"
+  | .blob n => "b" ++ toString n
+
+def memberLe (a b : String × String) : Bool := decide (a.1 < b.1) || (a.1 == b.1 && decide (a.2 ≤ b.2))
+
+/-- sorted `hex(path):content` list -/
+def showFiles (id : String) (fs : List (Comps × Content)) : List String :=
+  let items := fs.map (fun fc => (joinSlash fc.1, showContent id fc.2))
+  (sortBy memberLe items).map (fun pc => toHex pc.1 ++ ":" ++ pc.2)
+
+def showProject (P : Project) : String :=
+  let js := sortBy (fun (a b : Job) => decide (a.id ≤ b.id)) P
+  " ".intercalate (js.map (fun j =>
+    " ".intercalate (["J", toHex j.id, toString j.files.length] ++ showFiles j.id j.files)))
+
+/-- physical components of every exported path; `none` if one is outside the modelled domain
+    (absolute, leaves the target, or is not in normal form) -/
+def physAll (ds : List String) : Option (List Comps) :=
+  match mapExcept (fun d =>
+      match physComps d with
+      | some cs => if d = "" ∨ normpath d = d then Except.ok cs else Except.error ()
+      | none => Except.error ()) ds with
+  | .ok r => some r
+  | .error _ => none
+
+/-- sorted member list; a state point file is shown as `s` when it is the one of some exported job -/
+def memberList (t : Target) (P : Project) (ds : List Comps) : List String :=
+  let showC : Content → String
+    | .sp v => if P.any (fun j => calcId v = j.id) then "s" else "x"
+    | .blob n => "b" ++ toString n
+  let fl := (exportMembers P ds).map (fun fc => (joinSlash fc.1, showC fc.2))
+  let dl := match t with
+    | .tar => (exportDirMembers P ds).map (fun d => (joinSlash d, "d"))
+    | _ => []
+  (sortBy memberLe (fl ++ dl)).map (fun pc => toHex pc.1 ++ ":" ++ pc.2)
+
+def stepIE (line : String) : String :=
+  match tokens line with
+  | "auto" :: sepTok :: ts =>
+    let sep : Option (Option String) := match sepTok.toList with
+      | ['A'] => some none
+      | 'U' :: hx => (unhex (String.ofList hx)).map some
+      | _ => none
+    match sep, pProject ts with
+    | some sep, some (P, []) =>
+      let jobs := spList P
+      " ".intercalate (jobs.map (fun j => match autoPath jobs [] sep j.1 with
+        | some p => "S" ++ toHex p
+        | none => "!"))
+    | _, _ => "bad-value"
+  | "paths" :: ts =>
+    match pSpec ts with
+    | some (spec, r) =>
+      match pProject r with
+      | some (P, []) =>
+        match exportProject spec P with
+        | .ok ps => " ".intercalate ("ok" :: ps.map (fun p => "S" ++ toHex p))
+        | .error e => "err " ++ e.name
+      | _ => "bad-value"
+    | none => "bad-value"
+  | "checks" :: ts =>
+    match pNat 'N' ts with
+    | some (n, r) =>
+      match pMany pStr n r with
+      | some (ps, []) =>
+        let b (x : Bool) := if x then "1" else "0"
+        "u" ++ b (checkUnique ps) ++ " l" ++ b (checkLeafNode ps) ++ " c" ++ b (checkLeafNodeCoded [] ps)
+      | _ => "bad-value"
+    | none => "bad-value"
+  | "members" :: ts =>
+    match pTarget ts with
+    | some (t, r) =>
+      match pSpec r with
+      | some (spec, r) =>
+        match pProject r with
+        | some (P, []) =>
+          match exportProject spec P with
+          | .error e => "err " ++ e.name
+          | .ok ds =>
+            match physAll ds with
+            | none => "unsupported-path"
+            | some cs => " ".intercalate ("ok" :: memberList t P cs)
+        | _ => "bad-value"
+      | none => "bad-value"
+    | none => "bad-value"
+  | "rt" :: ts =>
+    match pTarget ts with
+    | some (t, r) =>
+      match pSpec r with
+      | some (spec, r) =>
+        match pSchema r with
+        | some (schema, r) =>
+          match pProject r with
+          | some (dst, r) =>
+            match pProject r with
+            | some (P, wtoks) =>
+              let worder : Option (Option (List Comps)) := match wtoks with
+                | [] => some none
+                | _ => match pNat 'W' wtoks with
+                  | some (n, r) => match pMany pStr n r with
+                    | some (ds, []) => some (some (ds.map relComps))
+                    | _ => none
+                  | none => none
+              match worder with
+              | none => "bad-value"
+              | some worder =>
+              match exportProject spec P with
+              | .error e => "export-err " ++ e.name
+              | .ok ds =>
+                match physAll ds, schema with
+                | none, _ => "unsupported-path"
+                | _, none => "bad-schema"
+                | some cs, some schema =>
+                  let order := match worder with
+                    | some o => o
+                    | none => walkOrder (exportMembers P cs)
+                  let res := importFrom t calcId schema dst P cs order
+                  let shown := showProject res.proj
+                  (match res.err with
+                   | none => "ok"
+                   | some e => "err " ++ e.name) ++ (if shown = "" then "" else " " ++ shown)
+            | _ => "bad-value"
+          | none => "bad-value"
+        | none => "bad-value"
+      | none => "bad-value"
+    | none => "bad-value"
+  | "parse" :: ts =>
+    match pStr ts with
+    | some (s, r) =>
+      match pStr r with
+      | some (p, []) =>
+        match parseSchema s with
+        | none => "bad-schema"
+        | some sc =>
+          match parsePath sc (splitSlash (normpath p)) with
+          | some v => wire v
+          | none => "none"
+      | _ => "bad-value"
+    | none => "bad-value"
+  | "render" :: ts =>
+    match pStr ts with
+    | some (s, r) =>
+      match parseValue r with
+      | some (v, []) =>
+        match parseSchema s with
+        | none => "bad-schema"
+        | some sc =>
+          match formatPath sc v with
+          | some cs => "S" ++ toHex (joinSlash cs)
+          | none => "none"
+      | _ => "bad-value"
+    | none => "bad-value"
+  | "norm" :: ts =>
+    match pStr ts with
+    | some (p, []) => "S" ++ toHex (normpath p)
+    | _ => "bad-value"
+  | "join" :: ts =>
+    match pNat 'N' ts with
+    | some (n, r) =>
+      match pMany pStr n r with
+      | some (ps, []) => "S" ++ toHex (osJoin ps)
+      | _ => "bad-value"
+    | none => "bad-value"
+  | _ => "bad-op"
+
+def main : IO Unit := driverLoop stepIE
